@@ -114,6 +114,7 @@ type progInfo struct {
 	mode  int
 	help  string
 	noid  int
+	big   bool // a large instance: many options, deeper trees, long argument vectors and bundles
 }
 
 func (g *gen) kind() int {
@@ -288,7 +289,11 @@ func (g *gen) genProgram(c *Case) *progInfo {
 		c.Root = "prog" // Self overrides below anyway
 	}
 	used := map[int]map[string]bool{0: {}}
+	pi.big = g.p(0.06)
 	nopts := 1 + g.r.Intn(5)
+	if pi.big {
+		nopts = 6 + g.r.Intn(8)
+	}
 	var late []DefOp
 	for i := 0; i < nopts; i++ {
 		op, oi := g.genOpt(pi, root, used[0], &c.Env)
@@ -340,6 +345,9 @@ func (g *gen) genProgram(c *Case) *progInfo {
 		var addCmds func(parent *nodeInfo, depth int)
 		addCmds = func(parent *nodeInfo, depth int) {
 			nc := 1 + g.r.Intn(3)
+			if pi.big {
+				nc = 2 + g.r.Intn(4)
+			}
 			usedC := map[string]bool{}
 			for i := 0; i < nc; i++ {
 				name := g.pick(cmdPool)
@@ -395,7 +403,7 @@ func (g *gen) genProgram(c *Case) *progInfo {
 				if g.p(0.05) {
 					script = append(script, DefOp{Op: "argfn", H: h, N: g.r.Intn(3)})
 				}
-				if depth < 2 && g.p(0.3) {
+				if (depth < 2 || (pi.big && depth < 3)) && g.p(0.3) {
 					addCmds(n, depth+1)
 					if g.p(0.35) {
 						// an option declared on a command after its sub-commands exist (it reaches them
@@ -501,6 +509,9 @@ func (g *gen) genArgs(pi *progInfo) []string {
 	var args []string
 	cur := pi.nodes[0]
 	n := g.r.Intn(g.f.MaxArgs + 1)
+	if pi.big {
+		n = g.r.Intn(24)
+	}
 	allCmdNames := []string{}
 	for _, nd := range pi.nodes[1:] {
 		allCmdNames = append(allCmdNames, nd.name)
@@ -524,6 +535,9 @@ func (g *gen) genArgs(pi *progInfo) []string {
 					// bundle several one-letter keys
 					tok = "-" + key
 					extra := g.r.Intn(3)
+					if pi.big {
+						extra = g.r.Intn(8)
+					}
 					for i := 0; i < extra; i++ {
 						o2 := cur.opts[g.r.Intn(len(cur.opts))]
 						k2 := o2.keys[g.r.Intn(len(o2.keys))]
@@ -716,6 +730,16 @@ func (g *gen) genCase(id int) *Case {
 	c.Args = g.genArgs(pi)
 	c.Dispatch = g.f.Dispatch
 	c.Help = g.f.Help
+	c.Reparse = !c.Help && !c.Dispatch && g.p(0.5) || (g.f.Prop == "C06" || g.f.Prop == "C12") && g.p(0.3)
+	if c.Reparse {
+		c.Dispatch, c.Help = false, false
+	}
+	if c.Help && g.p(0.3) {
+		// Help(sections...) with an explicit choice and order of sections
+		for k := 1 + g.r.Intn(3); k > 0; k-- {
+			c.HelpSecs = append(c.HelpSecs, 2+g.r.Intn(5))
+		}
+	}
 	return c
 }
 
